@@ -2,7 +2,7 @@
 import numpy as np
 import impl, cases
 from gen import rng_for
-from .common import tolist, keyword_call_differs, history_differs, transform_primers, api_names
+from .common import tolist, keyword_call_differs, history_differs, transform_primers, api_names, exceeds
 
 LEAN = "PystogVerif.Props.C05"
 RK, GK = ["S", "F", "FK", "DCS"], ["g", "G", "GK"]
@@ -41,6 +41,13 @@ def evaluate(case):
             f, df = getattr(cv, f"{X}_to_{hub_in}")(x, y, dy, **kw)
         core = tr.F_to_G if q2r else tr.G_to_F
         xr, v, dv = core(x, f, xo, df, **kw)
+        # the hub is the core sine transform itself with the caller's options (2/pi only in Q->r): nothing is done to the table first
+        _, v0, dv0 = tr.fourier_transform(x, f, xo, dy_in=df, **kw)
+        k0 = 2 / np.pi if q2r else 1.0
+        hsc = max(1.0, float(np.abs(np.asarray(v0)).max(initial=0.0)) * k0)
+        if exceeds(np.abs(np.asarray(v, dtype=float) - k0 * np.asarray(v0, dtype=float)).max(initial=0.0), 1e-12 * hsc) or \
+                exceeds(np.abs(np.asarray(dv, dtype=float) - k0 * np.asarray(dv0, dtype=float)).max(initial=0.0), 1e-12 * max(1.0, float(np.abs(np.asarray(dv0)).max(initial=0.0)))):
+            fails.append(f"{'F_to_G' if q2r else 'G_to_F'}: is not {'(2/pi) x ' if q2r else ''}the core sine transform of the same table with the caller's options")
         if Y != hub_out:
             v, dv = getattr(cv, f"{hub_out}_to_{Y}")(xr, v, dv, **kw)
     names = api_names(case["entry"]) or []
